@@ -46,14 +46,58 @@ def bounded(sp, cfg):
     return True
 
 
+FORCED_PARALLELISM = None
+
+
 def init_parallelism():
     """`threads = 0` means the available parallelism: ask the standard library what that is here."""
+    if FORCED_PARALLELISM is not None:
+        TG.PARALLELISM = FORCED_PARALLELISM
+        return
     try:
         from . import purecheck
         bins = build.build("release", ["puredrv"])
         TG.PARALLELISM = int(purecheck.ask(bins["puredrv"], ["K"])[0])
     except Exception:
         pass
+
+
+def restricted_cpu_slice(prop, tier, seed, out):
+    """The same registries in a process that may use only some of the machine's CPUs (an affinity mask, as under taskset, a container
+    cpuset or a pinned CI runner): `threads = 0` means what the standard library reports as available there, not the machine's size."""
+    global FORCED_PARALLELISM
+    import subprocess
+    from . import purecheck
+    cpus = sorted(os.sched_getaffinity(0))
+    st = {"cpus_of_this_process": len(cpus), "runs": 0}
+    if len(cpus) < 6:
+        st["skipped"] = "fewer than 6 CPUs to restrict from"
+        out.extra["restricted_cpus"] = st
+        return st
+    mask = ",".join(map(str, cpus[1:4]))     # three CPUs, not starting at the first
+    bins = build.build("release", ["puredrv"])
+    try:
+        p = subprocess.run(["taskset", "-c", mask, bins["puredrv"], "--q", "K"], stdout=subprocess.PIPE, stderr=subprocess.PIPE, timeout=60)
+        par = int(p.stdout.decode().split("\n")[0])
+    except Exception as e:
+        st["skipped"] = "taskset / probe failed: %s" % e
+        out.extra["restricted_cpus"] = st
+        return st
+    st["mask"], st["available_parallelism_under_mask"] = mask, par
+    FORCED_PARALLELISM = par
+    try:
+        jobs = [j for j in make_jobs(prop, "quick", seed + 700) if j[1].intent.action in ("bench", "test")]
+        jobs = jobs[:120 if tier == "quick" else 1200]
+        for sp, cfg in jobs:
+            cfg.affinity = mask
+        agg, _, _ = run_jobs(prop, jobs, out, want={prop})
+        st["runs"] = agg.get("executions", 0)
+        st["thread_branches"] = agg.get("thread_branches", 0)
+    finally:
+        FORCED_PARALLELISM = None
+        init_parallelism()
+    out.extra["restricted_cpus"] = st
+    return st
 
 
 def make_jobs(prop, tier, seed):
@@ -418,6 +462,10 @@ def check(prop, tier, seed, out):
         from . import cratecheck
         g = cratecheck.macro_slice(prop, tier, seed, out)
         out.require("generated_crate_nodes", g.get("nodes", 0), 200)
+    if prop == "C15":
+        st = restricted_cpu_slice(prop, tier, seed, out)
+        if "skipped" not in st:
+            out.require("restricted_cpu_executions", st["runs"], 50)
     if prop == "C17":
         concurrent_use_slice(prop, tier, seed, out)
     if prop == "C13":
